@@ -214,13 +214,25 @@ fn conflict_rename(seed: u64) -> Run {
     let addrs: Vec<IpAddr> = vec!["10.0.0.5".parse().unwrap()];
     let reg = World::reg_info("_t._udp.local.", "contested", "contested-host.local.", &addrs, 80, &[("k", Some(b"v"))]);
     w.register(h, reg);
+    // one run in three: the conflict hits an update of the announced service (only the changed record is probed)
+    let update = util::mix(seed, 0x0D) % 3 == 0;
+    let (t0, jitter) = if update {
+        w.run_until(t0 + 3000);
+        let reg = World::reg_info("_t._udp.local.", "contested", "contested-host.local.", &addrs, 80, &[("k", Some(b"v2"))]);
+        let t = w.now();
+        w.register(h, reg);
+        (t, 200)
+    } else {
+        (t0, jitter)
+    };
     // anywhere in the probing period, often after the third probe (when no probe timer is left)
     let at = jitter + if rng.chance(1, 2) { 505 + rng.below(240) } else { 1 + rng.below(745) };
     w.run_until(t0 + at);
     let inst = wire::name("contested._t._udp.local");
     let host = wire::name("contested-host.local");
     let mut m = Message::response();
-    match rng.below(3) {
+    match if update { 3 } else { rng.below(3) } {
+        3 => m.answers.push(wire::txt(&inst, 4500, b"\x08k=theirs".to_vec())),
         0 => m.answers.push(wire::srv(&inst, 120, 9999, &wire::name("zzz.local"))),
         1 => m.answers.push(wire::a(&host, 120, [10, 0, 0, 77])),
         _ => {
@@ -231,7 +243,7 @@ fn conflict_rename(seed: u64) -> Run {
     w.inject_msg(h, 2, scen::peer4(77), &m);
     let horizon = t0 + 12_000;
     w.run_until(horizon);
-    Run { world: w, horizon, desc: format!("conflict-rename jitter={jitter} at=+{at}") }
+    Run { world: w, horizon, desc: format!("conflict-rename jitter={jitter} at=+{at} update={update}") }
 }
 
 pub const SCENARIOS: &[(&str, ScenarioFn)] = &[
